@@ -180,21 +180,28 @@ func WrapReader(kind string, data []byte) io.Reader {
 // StdReaders lists the kinds WrapReader knows.
 var StdReaders = []string{"bufio", "bufio16", "bytes.Reader", "bytes.Buffer", "strings.Reader", "LimitReader", "iotest.DataErrReader", "iotest.HalfReader"}
 
-// SameContent compares a decoded message with the frame's content.
+// SameContent compares a decoded message with the frame's content (the description of the decoded
+// content is only built when it differs: payloads can have megabytes).
 func (f Frame) SameContent(m proto.Message) (bool, string) {
+	hx := func(ok bool, b []byte) (bool, string) {
+		if ok {
+			return true, ""
+		}
+		return false, fmt.Sprintf("%x", b)
+	}
 	switch x := m.(type) {
 	case *Raw:
-		return bytes.Equal(x.B, f.Payload), fmt.Sprintf("%x", x.B)
+		return hx(bytes.Equal(x.B, f.Payload), x.B)
 	case *RawV:
-		return bytes.Equal(x.B, f.Payload), fmt.Sprintf("%x", x.B)
+		return hx(bytes.Equal(x.B, f.Payload), x.B)
 	case *wrapperspb.BytesValue:
-		return bytes.Equal(x.Value, f.Payload), fmt.Sprintf("%x", x.Value)
+		return hx(bytes.Equal(x.Value, f.Payload), x.Value)
 	case *BytesV:
-		return bytes.Equal(x.Value, f.Payload), fmt.Sprintf("%x", x.Value)
+		return hx(bytes.Equal(x.Value, f.Payload), x.Value)
 	case *wrapperspb.StringValue:
-		return x.Value == string(f.Payload), fmt.Sprintf("%q", x.Value)
+		return x.Value == string(f.Payload), fmt.Sprintf("%.300q", x.Value)
 	case *StringV:
-		return x.Value == string(f.Payload), fmt.Sprintf("%q", x.Value)
+		return x.Value == string(f.Payload), fmt.Sprintf("%.300q", x.Value)
 	case *wrapperspb.Int64Value:
 		return x.Value == f.Int, fmt.Sprint(x.Value)
 	case *emptypb.Empty:
